@@ -1,14 +1,138 @@
 import BronVerif.Drive.Common
 import BronVerif.Model.Cbor
+import BronVerif.Model.Wire
+import BronVerif.Model.Curves
+import BronVerif.Model.CurveEnc
 /-! Driver handlers for C12 (wire formats): every verdict is computed with the CBOR model
-(`Model/Cbor.lean`): generic strict decoding, canonical re-encoding, container-level
-classification of mutants. -/
+(`Model/Cbor.lean`: generic strict decoding, canonical re-encoding, container-level classification
+of mutants) and, for the modelled types, with the typed wire models of `Model/Wire.lean`
+(`decodeWith decT`, `encodeWith encT`, `validT` — the very definitions `Props/C12.lean` proves
+`decodeT_valid` / `decodeT_encodeT` about), instantiated with `Fp n` and the runtime curve points:
+
+* `canon <type> <bytes>`: the library's own encoding must be canonical, round-trip byte for byte
+  and — modelled types — be the canonical encoding of a value satisfying `validT` (a disagreement
+  on an honestly constructed value is a model/implementation mismatch: `DIFF`);
+* `mut <type> <kind> <bytes> => accept:<re-encoding>`: the accepted object, as re-encoded by Go, must
+  satisfy `validT` (`BAD key=accepted-object-invalid` otherwise: the decoder returned an object that
+  violates the rules its constructor enforces, e.g. a shard whose private share does not match
+  `M_rows · V` in some component). -/
 namespace BronVerif.Drive.C12
 open BronVerif BronVerif.Drive BronVerif.Cbor
 
 def parseBytes? (s : String) : Option Bytes := (hexToBytes? s).map (·.toList)
 
 def renderBytes (b : Bytes) : String := bytesToHex (ByteArray.mk b.toArray)
+
+/-! ## typed models (`Model/Wire.lean`) instantiated with the executable fields and curves -/
+
+section typed
+open BronVerif.Wire BronVerif.Curve BronVerif.Curves BronVerif.CurveEnc
+
+def wOf {q : Nat} [NeZero q] (P : Pt) : WPt (Fp q) :=
+  match P.coords with
+  | some ([x], [y]) => .aff (Fp.ofNat q x) (Fp.ofNat q y)
+  | _ => .inf
+def wTo {q : Nat} : WPt (Fp q) → Pt
+  | .inf => .inf
+  | .aff x y => ⟨some ([x.val], [y.val])⟩
+
+def toNats (b : Bytes) : List Nat := b.map (·.toNat)
+def ofNats (xs : List Nat) : Bytes := xs.map UInt8.ofNat
+
+/-- Jacobian → affine -/
+def jToAffine {q : Nat} [NeZero q] (P : Fast.JPt (Fp q)) : WPt (Fp q) :=
+  if P.z = 0 then .inf else
+    let zi := P.z⁻¹
+    let zi2 := zi * zi
+    .aff (P.x * zi2) (P.y * zi2 * zi)
+
+/-- scalar multiplication with the inversion-free Jacobian ladder of `Model/CurveEnc.lean` (one
+field inversion at the end instead of one per step) -/
+def fastSmul (C : Params) (k : Nat) (P : Pt) : Pt :=
+  withPrime C.p .inf fun q =>
+    match wOf (q := q) P with
+    | .inf => .inf
+    | .aff x y => wTo (jToAffine (Fast.jSmulAux (Fp.ofNat q C.a) (k.log2 + 1) k ⟨x, y, 1⟩ Fast.jInf))
+
+/-- scalar action of `Fp n` on the prime-order group of `C` (`n = C.n`); residues above `n/2` act
+as the negative of their complement, which keeps the small negative MSP coefficients cheap -/
+def smulFp (C : Params) {n : Nat} (k : Fp n) (P : Pt) : Pt :=
+  if 2 * k.val > n then Curves.neg C (fastSmul C (n - k.val) P) else fastSmul C k.val P
+
+/-- `FromBytes` of a scalar field of `len` bytes: exactly `len` big-endian bytes of a canonical
+residue (the re-encodings the driver looks at are canonical) -/
+def scalarIO (n : Nat) [NeZero n] (len : Nat) : ElemIO (Fp n) where
+  dec b := if b.length = len ∧ beVal b < n then some (Fp.ofNat n (beVal b)) else none
+  enc s := Cbor.beBytes s.val len
+
+/-- compressed points of the prime-order group: SEC1 for k256, the Zcash form for BLS12-381 G1 -/
+def pointIO (C : Params) : Option (ElemIO Pt) :=
+  if C.name == "k256" then
+    withPrime C.p none fun q =>
+      let io := fpIO q
+      let a := Fp.ofNat q C.a
+      let b := Fp.ofNat q C.b
+      some { dec := fun bs => (Sec1.decodeCompressed io a b 32 (toNats bs)).map wTo,
+             enc := fun P => ofNats (Sec1.encodeCompressed io 32 (wOf (q := q) P)) }
+  else if C.name == "bls12381g1" then
+    withPrime C.p none fun q =>
+      let io := g1IO q
+      let a := Fp.ofNat q C.a
+      let b := Fp.ofNat q C.b
+      some { dec := fun bs => (Bls.decodeCompressed io a b C.n 48 (toNats bs)).map wTo,
+             enc := fun P => ofNats (Bls.encodeCompressed io 48 (wOf (q := q) P)) }
+  else none
+
+/-- `decodeT b = some v` and `encodeT v = b`: the bytes are the canonical encoding of a valid value -/
+def roundTrips {T : Type} (dec : Item → Option T) (enc : T → Item) (b : Bytes) : Bool :=
+  match decodeWith dec b with
+  | some v => encodeWith enc v == b
+  | none => false
+
+/-- `{"base": x}` wrapper of `bls.Shard` -/
+def unwrapBase : Item → Option Item
+  | .map [.text k, x] => if k = kBase then some x else none
+  | _ => none
+
+/-- `some ok`: the type is modelled and `ok` says whether `b` is the canonical encoding of a value
+satisfying the type's validity predicate; `none`: no Lean-side model for this type. -/
+def typedValid (ty : String) (b : Bytes) : Option Bool :=
+  match ty.splitOn "/" with
+  | ["threshold.Threshold"] => some (roundTrips decThreshold encThreshold b)
+  | ["unanimity.Unanimity"] => some (roundTrips decUnanimity encUnanimity b)
+  | ["cnf.CNF"] => some (roundTrips decCNF encCNF b)
+  | ["hierarchical.HierarchicalConjunctiveThreshold"] => some (roundTrips decHierarchical encHierarchical b)
+  | ["boolexpr.ThresholdGateAccessStructure"] => some (roundTrips decBoolAS encBoolAS b)
+  | ["paillier.PublicKey"] => some (roundTrips decPaillierPK encPaillierPK b)
+  | [name, cn] =>
+    match byName? cn with
+    | none => none
+    | some C =>
+      withPrime C.n none fun n =>
+        let fio := scalarIO n 32
+        match pointIO C with
+        | none => none
+        | some gio =>
+          letI : Add Pt := ⟨Curves.add C⟩
+          letI : OfNat Pt 0 := ⟨Curves.zero C⟩
+          letI : HSMul (Fp n) Pt Pt := ⟨smulFp C⟩
+          let g := Curves.gen C
+          if name == "mpc.BaseShard" || name == "dkls23.Shard" || name == "schnorr.Shard" then
+            some (roundTrips (decShardW fio gio g) (encShardW fio gio) b)
+          else if name == "bls.Shard" then
+            some (roundTrips (fun x => (unwrapBase x).bind (decShardW fio gio g))
+              (fun v => .map [.text kBase, encShardW fio gio v]) b)
+          else if name == "mpc.BasePublicMaterial" then some (roundTrips (decPMW fio gio) (encPMW fio gio) b)
+          else if name == "msp.MSP" then some (roundTrips (decMSPW fio) (encMSPW fio) b)
+          else if name == "kw.Share" then some (roundTrips (decShareW fio) (encShareW fio) b)
+          else if name == "feldman.VerificationVector" then some (roundTrips (decVV gio) (encVV gio) b)
+          else if name == "mat.Matrix" then
+            some (roundTrips (decMatW (decScalar fio)) (encMatW (encScalar fio)) b)
+          else if name == "ecdsa.Signature" then some (roundTrips (decSigW fio) (encSigW fio) b)
+          else none
+  | _ => none
+
+end typed
 
 /-- mutation kinds whose product is malformed at container level by construction -/
 def containerKinds : List String := ["trailing", "indef", "dupkey", "reserved", "truncate"]
@@ -27,6 +151,8 @@ def handle (op : String) (args : List String) (rhs : String) : Verdict :=
         let e := encode x
         if e ≠ b then .bad "non-canonical-encoding" ("expected=" ++ renderBytes e)
         else if !(isCanon x) then .bad "non-canonical-encoding" "map keys not strictly ascending"
+        else if typedValid _ty b == some false then
+          .diff "the typed model (Model/Wire.lean) does not accept this honest encoding as a valid value"
         else spec "roundtrip-bytes" hs rhs
   -- a mutated encoding handed to the typed decoder
   | "mut", [_ty, kind, hs] =>
@@ -47,8 +173,12 @@ def handle (op : String) (args : List String) (rhs : String) : Verdict :=
             match decode b2 with
             | none => .bad "accepted-object-reencodes-malformed" ("kind=" ++ kind)
             | some y =>
-              if encode y = b2 then .ok
-              else .bad "accepted-object-reencodes-noncanonical" ("expected=" ++ renderBytes (encode y))
+              if encode y ≠ b2 then
+                .bad "accepted-object-reencodes-noncanonical" ("expected=" ++ renderBytes (encode y))
+              -- the accepted object (as re-encoded by Go) must satisfy the type's validity predicate
+              else if typedValid _ty b2 == some false then
+                .bad "accepted-object-invalid" ("type=" ++ _ty ++ " kind=" ++ kind ++ " object=" ++ renderBytes b2)
+              else .ok
       else .unsupported "rhs"
   -- generic decoding into `any` with the library's decoding mode
   | "any", [hs] =>
